@@ -124,6 +124,18 @@ CHECKS["C20"] = {
                     _SAMPLING],
 }
 
+CHECKS["C18"] = {
+    "level": "fault_enumeration",
+    "technique": _TECH + ": real FS client vs scripted server sending a path grammar, with a connection reset or a stall+cancellation at every I/O step of the exchange; real FS server vs scripted client objects; before/after snapshots of token-tagged filesystem entries",
+    "level_text": "Fault enumeration on the real filesystem: the real FS client half (reached through a real client handshake negotiated to FS over the simulated network) is given, by a scripted server, every path of a grammar - the two recognised shapes (plain and address-qualified for the endpoint really connected to), address-qualified names for another IP / port / IPv6 / hostname, relative, other directories, '..' and '.' components, doubled and trailing slashes, nesting under an existing subdirectory, a symlinked parent, near-miss leaf names, control and non-ASCII bytes, over-long fields - plus random one-character mutations of the accepted paths (judged by an independent statement of the acceptance rule), and, for six representative paths, a connection reset and a stall followed by cancellation at each of the first 10 I/O steps of the client's FS exchange. Every object a run could create carries a per-run token and hostile targets point into a per-run sandbox tree under /var/tmp. Oracle: the snapshot (names, types, modes) of token-tagged /tmp entries and of the sandbox tree is identical before the exchange and after the client returned, however it returned; for an unacceptable path nothing exists at it when the server looks and the client sent a failure result; for an acceptable one what exists during the exchange is a 0700 directory. The real FS server half is given, by a scripted client, a proper 0700 directory, nothing, a regular file, a symlink to a directory, 0755 and 0777 directories, a directory with a subdirectory, and a directory swapped for a symlink: it must succeed only for the first, record the directory owner as the identity, and remove what it judged without touching a symlink's target.",
+    "level_note": "Needs a writable /tmp and /var/tmp; leaves nothing behind (the check verifies that itself and sweeps token-tagged entries). FS 'remote' mode is unreachable through the handshake and not exercised.",
+    "budget": {"quick": 20, "thorough": 600},
+    "rule": "a case is one path (or object, or path x fault x step) run as a real FS exchange inside a real handshake; distinct = distinct event-log hash; non-trivial = a fault fired or the scheduler had a choice.",
+    "real": _REAL_SEC + ["security FS authentication client and server halves", "the real filesystem (/tmp, /var/tmp)"],
+    "stub": _SIM + ["scripted FS server / client (puppet)"],
+    "assumptions": ["no other process creates token-tagged names", _SAMPLING],
+}
+
 CHECKS["C16"] = {
     "level": "exploration",
     "technique": _TECH + ": minter node and importer node with separate caches on the simulated network; generated mint options; real handshakes naming the session in both dial directions; virtual-time lifetime",
